@@ -91,19 +91,27 @@ def search(ck, tier, seed):
         if "Bernoulli" in name:
             x = (x > 0.5).float()
         c = None if cf is None else torch.randn(4, cf, generator=g)
-        for call in ("log_prob", "sample", "sample_and_log_prob", "transform_to_noise"):
-            if not hasattr(d, call) or (call != "log_prob" and name == "DiagonalNormal"):
+        calls = [("log_prob", None, None), ("transform_to_noise", None, None)]
+        # sample counts 1 and 3 (one draw per row makes repeat_rows / split return views), batched and not
+        calls += [("sample", n_, bs_) for n_ in (1, 3) for bs_ in (None, 1, 2)] + [("sample_and_log_prob", n_, None) for n_ in (1, 3)]
+        calls += [("mean", None, None)]
+        for call, n_, bs_ in calls:
+            if not hasattr(d, call) or (call not in ("log_prob", "mean") and name == "DiagonalNormal"):
                 continue
-            ck.case(("c13-dist", name, call), nontrivial=True)
+            ck.case(("c13-dist", name, call, n_, bs_), nontrivial=True)
             xb, cb = x.clone(), None if c is None else c.clone()
             sd0 = copy.deepcopy(d.state_dict())
             if call in ("log_prob", "transform_to_noise"):
                 r = attempt(getattr(d, call), x, c)
+            elif call == "mean":
+                r = attempt(d.mean, c)
+            elif bs_ is not None:
+                r = attempt(d.sample, n_, c, bs_)
             else:
-                r = attempt(getattr(d, call), 3, c)
+                r = attempt(getattr(d, call), n_, c)
             if r[0] != "ok":
                 continue
-            case = {"search": "dist", "class": name, "call": call}
+            case = {"search": "dist", "class": name, "call": call, "n": n_, "batch_size": bs_}
             if not torch.equal(x, xb) or (c is not None and not torch.equal(c, cb)):
                 ck.finding("side-effect:argument-modified:%s.%s" % (name, call), "%s.%s modified its arguments" % (name, call), case)
             if not state_equal(sd0, d.state_dict()):
